@@ -479,3 +479,38 @@ def use_after_clobber(ctx, rule="RW"):
                             bad = bad or ("%s is returned after %s modified it in place (%s)" % (show(a)[:60], c.rsplit(".", 1)[1], how[:60]), p.line)
         ctx.check(rule, qn + "|no-use-after-in-place-modification", False if bad else True, "no value is used after a callee transformed it in place", fn=qn, nontrivial=False,
                   bad=bad[0] if bad else "", line=bad[1] if bad else None)
+
+
+def first_appearance_numbering(p):
+    """a call on path p that numbers groups in order of first appearance (pd.factorize without sort=True, pd.unique, dict.fromkeys), or None.
+    Block coordinates are produced in the order of the SORTED labels (np.unique / groupby's default sort): results numbered by first
+    appearance are attached to the wrong blocks unless the points happen to arrive in block order."""
+    for e in p.events:
+        if e.kind == "call":
+            c = callee(e.data[0])
+            if c == "pandas.factorize" and Q.arg_kw(e.data[0], "sort") != const(True):
+                return e.data[0]
+            if c in ("pandas.unique", "builtins.dict.fromkeys"):
+                return e.data[0]
+    return None
+
+
+DISTANCE_FUNCS = {"numpy.hypot", "math.hypot", "numpy.linalg.norm", "math.dist"}
+
+
+def unguarded_distance_division(p, term):
+    """a denominator inside `term` that is a Euclidean distance between caller-supplied points (hypot / norm / sqrt of a sum of squares of
+    differences) - zero when the points coincide - on a path whose decisions never compare that distance with zero; returns it or None"""
+    def is_distance(d):
+        d = Q.unwrap(d)
+        if d[0] == "call" and callee(d) in DISTANCE_FUNCS:
+            return True
+        if d[0] == "call" and callee(d) in ("numpy.sqrt", "math.sqrt") and d[2] and any(x[0] == "binop" and x[1] == "**" for x in walk(d[2][0]) if isinstance(x, tuple) and x):
+            return True
+        return False
+    dens = [x[3] for x in walk(term) if isinstance(x, tuple) and x and x[0] == "binop" and x[1] in ("/", "//", "%") and is_distance(x[3])]
+    for d in dens:
+        guarded = any(any(y == d for y in walk(c)) for c, _v in p.conds)
+        if not guarded:
+            return d
+    return None
